@@ -173,12 +173,12 @@ def t4b(F, rep):
     tgt = set()
     n_push = 0
     for bb, t in b.calls():
-        if strip_generics(callee_def(t)).endswith("Vec::push"):
+        if re.search(r"Vec::(push|resize|extend_from_slice|extend|append)$", strip_generics(callee_def(t))):
             n_push += 1
             tgt.add(flow.describe(b, t["args"][0], names=True))
     ok2 = ok and n_push >= 3 and tgt == {"var(%s)" % m.group(1)}
     rep.add("T4", "ld-lengths-one-sequence-split-at-hlit", ok and ok2, where,
-            "returns %s; %d pushes into %s" % (rets, n_push, sorted(tgt)))
+            "returns %s; %d appends (push / resize / extend) into %s" % (rets, n_push, sorted(tgt)))
 
 
 def t5(F, rep):
